@@ -1115,16 +1115,25 @@ def main(run):
         # the regenerated definitions are no longer provably the model: search beyond the regular sizes for an input
         # on which the implementation leaves the property / the model (large dimensions and parent numbers, long runs)
         n0 = sum(len(v) for v in terms.values())
-        for dim in (33, 64, 100, 257, 300, 1000):
-            for lam in (4, 9, 64, 300, 700, 2100):
+        for dim in (33, 64, 100, 257):
+            s = params_case(dim, 4, {})                # one construction per dimension (eigh), then computeParams again
+            if s is None:
+                continue
+            for lam in (5, 9, 64, 300, 700, 2100):
                 for sch in SCHEME:
-                    params_case(dim, lam, {"weights": sch})
-                    params_case(dim, lam, {"weights": sch, "mu": rng.randint(1, lam)})
+                    for kw in ({"weights": sch}, {"weights": sch, "mu": rng.randint(1, lam)}):
+                        s.lambda_ = lam
+                        case = {"kind": "params-recomputed", "dim": dim, "lambda_": lam, "kargs": dict(kw)}
+                        run.note_case(case)
+                        if not impl(lambda: s.computeParams(kw), "computeParams", case)[0]:
+                            continue
+                        P = oracle_params(s, kw, case, "computeParams (wide search)")
+                        add("params", "CParams %s %s %s %s %s" % (cnat(dim), cnat(lam), cfloat(P["chiN"]), ckargs(kw), cparams(P)), case)
         for _ in range(run.scale(8, 40)):
             guard(one_run, rng.choice([33, 64, 100, 130]), False, rng.randint(2, 6))
-        for _ in range(run.scale(4, 20)):
-            guard(one_run, rng.randint(2, 8), True, rng.randint(60, 150))
-        run.notes.append("tie (T) broke: %d wide cases (dim up to 1000, lambda up to 2100, runs of 60..150 generations, oracle-only "
+        for _ in range(run.scale(3, 12)):
+            guard(one_run, rng.randint(2, 8), True, rng.randint(60, 120))
+        run.notes.append("tie (T) broke: %d wide cases (dim up to 257, lambda up to 2100, runs of 60..120 generations, oracle-only "
                          "runs at dim 33..130) searched in addition" % (sum(len(v) for v in terms.values()) - n0))
     run.extra_cov["c13"] = stats
     shards = {"params": 400, "init": 60, "update": 40, "gen": 80}
